@@ -107,10 +107,10 @@ Proof.
 Qed.
 
 Theorem ring_never_terminates : forall fuel,
-  flood_fill fuel ring_v ring_m 0 0 ring_p 1 = OutOfFuel.
+  flood_fill_pat fuel ring_v ring_m 0 0 ring_p 1 = OutOfFuel.
 Proof.
   intro fuel.
-  change (flood_fill fuel ring_v ring_m 0 0 ring_p 1)
+  change (flood_fill_pat fuel ring_v ring_m 0 0 ring_p 1)
     with (flood_loop fuel ring_v ring_p 1 (fst (ring_m, [(0, 0, 0, 0)])) (snd (ring_m, [(0, 0, 0, 0)]))).
   apply loop_live. intros [|k].
   - vm_compute. reflexivity.
